@@ -1035,4 +1035,259 @@ example :
     natBytes 0 = [48] ∧ natBytes 7 = [55] ∧ natBytes 10 = [49, 48] ∧ natBytes 123 = [49, 50, 51] ∧
     scanTags (renderPieces [.tag 12, .lit [97], .slot, .tag 0, .mm]) 0 = [12, 0] := by decide
 
+
+/-! ### the prompt bytes of the in-place template: tags as the runner reads them; longest fitting run (round 7) -/
+
+
+
+
+/-- **In-place messages template, exact form**: the prompt is the concatenation of `[role|content]` over the
+    merged messages -/
+theorem inplace_exact (tv : TVar) (msgs : List RMsg) (tools : ToolsV := {}) :
+    execute tv tInPlace msgs tools =
+      .ok ((collateMsgs msgs).flatMap (fun x => [91] ++ (roleName x.1 ++ ([124] ++ (x.2 ++ ([93] ++ [])))))) := by
+  have hbody : ∀ x : RMsg, execList ⟨false, (collate msgs).1, [], [], collateMsgs msgs, tools⟩ inPlaceBody (some x)
+      = .ok ([91] ++ (roleName x.1 ++ ([124] ++ (x.2 ++ ([93] ++ []))))) := by
+    intro x
+    simp [inPlaceBody, execList, execNode, eval, evalField, printVal, XOut.append]
+  have hf := fold_bodies_exact (execList ⟨false, (collate msgs).1, [], [], collateMsgs msgs, tools⟩ inPlaceBody)
+    (fun x => [91] ++ (roleName x.1 ++ ([124] ++ (x.2 ++ ([93] ++ []))))) (collateMsgs msgs) [] (fun x _ => hbody x)
+  have hm' : nodesMention Fld.messages tInPlace = true := by decide
+  have hex := inplace_exec ⟨false, (collate msgs).1, [], [], collateMsgs msgs, tools⟩ rfl
+  simp only [execute, hm', if_true]
+  show execList ⟨false, (collate msgs).1, [], [], (collate msgs).2, tools⟩ tInPlace none = _
+  have e2 : (collate msgs).2 = collateMsgs msgs := rfl
+  rw [e2, hex]
+  cases hne : (collateMsgs msgs).isEmpty with
+  | true =>
+    have hnil : collateMsgs msgs = [] := by cases h : collateMsgs msgs <;> simp_all
+    simp [hnil, execList, XOut.append]
+  | false =>
+    simp only [Bool.false_eq_true, if_false, hf]
+    simp [XOut.append]
+
+/-- the runner's scan of the in-place prompt of a conversation given as pieces -/
+theorem inplace_scan (tv : TVar) (l : List PMsg) (tools : ToolsV) (hclean : ∀ m ∈ l, cleanPieces m.2 = true) :
+    ∃ p, execute tv tInPlace (l.map rp) tools = .ok p ∧ scanTags p 0 = l.flatMap (fun m => tagsOf m.2) := by
+  refine ⟨_, inplace_exact tv (l.map rp) tools, ?_⟩
+  rw [collateMsgs_map_rp, List.flatMap_map]
+  have e : (collateP l).flatMap (fun x => [91] ++ (roleName (rp x).1 ++ ([124] ++ ((rp x).2 ++ ([93] ++ [])))))
+      = renderPieces ((collateP l).flatMap inPlaceP) := by
+    rw [renderPieces_flatMap]
+    congr 1
+    funext x
+    exact (inPlaceP_render x).symm
+  rw [e, scanTags_renderPieces _ (flatMap_clean inPlaceP _ (fun x hx => inPlaceP_clean x (collateP_clean l hclean x hx))),
+    flatMap_tags]
+  simp only [inPlaceP_tags]
+  exact collateP_tags l
+
+/-- **Each image exactly once in the PROMPT, tagged with its index — on the bytes, as the runner reads them**
+    (in-place messages template, current /repo variant, user text `safeText` and tag-free): the matches of the
+    runner's `\[img-(\d+)\]` in the prompt are the tags of the kept system messages and of the retained
+    messages in order; every index `k < #images` is matched exactly once and no other number is; every
+    match resolves in the runner's lookup. -/
+theorem prompt_tags_inplace {tv : TVar} {mode : Nat} {tf : Option Nat} {p : Bytes} {tools : ToolsV}
+    (h : chatPromptT cfg tv tInPlace mode msgs tf tools = .ok q n sys ret imgs p)
+    (hv : cfg.fixed = true)
+    (hclean : ∀ m ∈ msgs, cleanPieces m.content = true)
+    (hno : ∀ m ∈ msgs, ∀ k, countTag k m.content = 0) :
+    scanTags p 0 = (sys ++ ret).flatMap (fun m => tagsOf m.content) ∧
+    (∀ k, (scanTags p 0).count k = if k < imgs.length then 1 else 0) ∧
+    ∃ l, resolveTags imgs (scanTags p 0) = some l ∧ l.length = (scanTags p 0).length := by
+  obtain ⟨hg, hexec⟩ := templ_ok_exact h
+  have hsys := (system_kept_fixed hg hv).1
+  have hsysmem : ∀ m ∈ sys, m ∈ msgs := by
+    intro m hm
+    rw [hsys] at hm
+    exact List.mem_of_mem_take (List.mem_filter.mp hm).1
+  have hretclean : ∀ m' ∈ ret, cleanPieces m'.content = true := by
+    intro m' hm'
+    obtain ⟨m, hm, hs⟩ := AllSame.mem_right (retained_is_suffix_in_order hg) m' hm'
+    rw [cleanPieces_strip, hs.text, ← cleanPieces_strip]
+    exact hclean m (List.mem_of_mem_drop hm)
+  have hall : ∀ m ∈ (sys ++ ret).map (fun m : Msg => ((m.role, m.content) : PMsg)), cleanPieces m.2 = true := by
+    intro m hm
+    obtain ⟨x, hx, rfl⟩ := List.mem_map.mp hm
+    rcases List.mem_append.mp hx with h1 | h1
+    · exact hclean x (hsysmem x h1)
+    · exact hretclean x h1
+  obtain ⟨p', hp', hscan⟩ := inplace_scan tv ((sys ++ ret).map (fun m : Msg => ((m.role, m.content) : PMsg))) tools hall
+  have emap : ((sys ++ ret).map (fun m : Msg => ((m.role, m.content) : PMsg))).map rp = (sys ++ ret).map toRMsg := by
+    rw [List.map_map]; rfl
+  rw [emap, hexec] at hp'
+  injection hp' with hp'
+  subst hp'
+  have hscan' : scanTags p 0 = (sys ++ ret).flatMap (fun m => tagsOf m.content) := by
+    rw [hscan, List.flatMap_map]
+  obtain ⟨_, hid, hcount⟩ := images_once_indexed hg hno
+  have hcnt : ∀ k, (scanTags p 0).count k = if k < imgs.length then 1 else 0 := by
+    intro k
+    rw [hscan', ← flatMap_tags (fun m : Msg => m.content), count_tagsOf, List.flatMap_append, countTag_append,
+      countTag_flatMap_zero k sys (fun m hm => hno m (hsysmem m hm) k), hcount k]
+    simp
+  refine ⟨hscan', hcnt, resolveTags_all imgs _ (fun k hk => ?_)⟩
+  have hpos : 0 < (scanTags p 0).count k := List.count_pos_iff.mpr hk
+  rw [hcnt k] at hpos
+  have hlt : k < imgs.length := by
+    by_cases hlt : k < imgs.length
+    · exact hlt
+    · simp [hlt] at hpos
+  exact ⟨_, resolveTag_of_IdsOk imgs hid k hlt⟩
+
+
+
+
+
+/-- cost of a candidate under the in-place template and the byte tokenizer = length of its rendering -/
+theorem tcost_inplace_bytes (tv : TVar) (msgs : List Msg) (tools : ToolsV) (i : Nat) :
+    tcost tv tInPlace 1 msgs tools i = gl ((cand msgs i).map toRMsg) := by
+  have := inplace_exact tv ((cand msgs i).map toRMsg) tools
+  unfold tcost renderAt
+  show (match execute tv tInPlace ((cand msgs i).map toRMsg) tools with
+    | .ok b => tokenCount 1 b | .err _ => 0) = _
+  rw [this]
+  rfl
+
+/-- **With the in-place template and the byte tokenizer the measured total never grows when the run gets
+    shorter** — the hypothesis of `retained_longest_fitting`, proved for this template from the model of
+    collate and Execute (dropping a message removes its bytes and at most merges its two neighbours) -/
+theorem total_antitone_inplace_bytes (cfg : Cfg) (tv : TVar) (msgs : List Msg) (tools : ToolsV) :
+    ∀ i j, i ≤ j → j + 1 < msgs.length →
+      total cfg (tcost tv tInPlace 1 msgs tools) msgs j ≤ total cfg (tcost tv tInPlace 1 msgs tools) msgs i := by
+  have hstep : ∀ i, i < msgs.length →
+      total cfg (tcost tv tInPlace 1 msgs tools) msgs (i+1) ≤ total cfg (tcost tv tInPlace 1 msgs tools) msgs i := by
+    intro i hi
+    have hc : tcost tv tInPlace 1 msgs tools (i+1) ≤ tcost tv tInPlace 1 msgs tools i := by
+      rw [tcost_inplace_bytes, tcost_inplace_bytes]
+      rcases cand_step msgs i hi with h | ⟨a, b, x, h1, h2⟩
+      · rw [h]; exact Nat.le_refl _
+      · rw [h1, h2]
+        simp only [List.map_append, List.map_cons]
+        exact gl_remove _ _ _
+    have hi' := imgCount_drop_step msgs i
+    unfold total
+    split
+    · have := Nat.mul_le_mul_left (imageNumTokens cfg) hi'
+      omega
+    · omega
+  intro i j hij hj
+  have := antitone_of_step (fun k => total cfg (tcost tv tInPlace 1 msgs tools) msgs k) msgs.length hstep (j - i) i (by omega)
+  have e : i + (j - i) = j := by omega
+  rw [e] at this
+  exact this
+
+/-- **The retained messages are THE longest recent run that fits** (in-place template, byte tokenizer; every
+    conversation, context length, model kind): a run `msgs[j:]` of at least two messages fits iff it is
+    retained — no hypothesis on the cost. -/
+theorem retained_longest_fitting_inplace_bytes {tv : TVar} {tf : Option Nat} {p : Bytes} {tools : ToolsV}
+    (h : chatPromptT cfg tv tInPlace 1 msgs tf tools = .ok q n sys ret imgs p) :
+    ∀ j, j + 1 < msgs.length →
+      (fits cfg (tcost tv tInPlace 1 msgs tools) msgs j = true ↔ n ≤ j) :=
+  retained_longest_fitting (templ_ok_exact h).1 (total_antitone_inplace_bytes cfg tv msgs tools)
+
+
+
+def scanOf : OutcomeT → List Nat
+  | .ok _ _ _ _ _ p => scanTags p 0
+  | _ => []
+
+/-- non-vacuity of `prompt_tags_inplace` and `retained_longest_fitting_inplace_bytes`: `nvconv` through the in-place
+    template with the byte tokenizer.  Everything kept (context length 1000): the runner finds tags 0, 2, 1 in the
+    prompt (the last user message has its second image's tag prefixed, the first one in the placeholder).  Context
+    length 40: cut at 2, tags 1, 0.  The text is `safeText`. -/
+example :
+    scanOf (chatPromptT ⟨true, false, 0, 1000⟩ ⟨2, true⟩ tInPlace 1 nvconv) = [0, 2, 1] ∧
+    cutOf (chatPromptT ⟨true, false, 0, 1000⟩ ⟨2, true⟩ tInPlace 1 nvconv) = some 0 ∧
+    scanOf (chatPromptT ⟨true, false, 0, 40⟩ ⟨2, true⟩ tInPlace 1 nvconv) = [1, 0] ∧
+    cutOf (chatPromptT ⟨true, false, 0, 40⟩ ⟨2, true⟩ tInPlace 1 nvconv) = some 2 ∧
+    (nvconv.all fun m => cleanPieces m.content) = true := by decide
+
+
+/-! ### the OpenAI-compatible entry (round 7) -/
+
+
+
+
+/-- the loop never returns `errTooManyImages` when no message has more than one image -/
+theorem scan_no_err (cfg : Cfg) (cost : Nat → Nat) (bad : Nat → Bool) (msgs : List Msg)
+    (himg : ∀ m ∈ msgs, m.images.length ≤ 1) :
+    ∀ (k n : Nat) (s : Option Nat) (q : Nat), scan cfg cost bad msgs k n s q ≠ .err := by
+  intro k
+  induction k with
+  | zero => intro n s q h; simp [scan] at h
+  | succ k ih =>
+    intro n s q
+    unfold scan
+    have h1 : (cfg.mllama && decide (1 < (imagesAt msgs k).length)) = false := by
+      have : ¬ (1 < (imagesAt msgs k).length) := by
+        rcases imagesAt_cases msgs k with h | ⟨m, hm', h⟩
+        · rw [h]; simp
+        · rw [h]; have := himg m hm'; omega
+      simp [this]
+    simp only [h1, Bool.false_eq_true, if_false]
+    split
+    · exact ih _ _ _
+    · split
+      · intro h; cases h
+      · split
+        · exact ih _ _ _
+        · intro h; cases h
+
+/-- chatPrompt never answers "vision model only supports a single image per message" when no message has
+    more than one image -/
+theorem no_too_many (cfg : Cfg) (cost : Nat → Nat) (bad : Nat → Bool) (msgs : List Msg)
+    (himg : ∀ m ∈ msgs, m.images.length ≤ 1) : chatPrompt cfg cost bad msgs ≠ .errTooMany := by
+  unfold chatPrompt
+  cases msgs with
+  | nil => intro h; cases h
+  | cons m ms =>
+    simp only
+    have := scan_no_err cfg cost bad (m :: ms) himg (m :: ms).length ((m :: ms).length - 1) none 0
+    split
+    · rename_i hs; exact absurd hs this
+    · intro h; cases h
+    · split <;> (intro h; cases h)
+
+theorem handlerMsgs_all (P : Msg → Prop) (mm : List Msg) (s : Bytes) (req : List Msg)
+    (h1 : ∀ m ∈ mm, P m) (h2 : ∀ m ∈ req, P m) (h3 : P ⟨Role.system, splitImg s, []⟩) :
+    ∀ m ∈ handlerMsgs mm s req, P m := by
+  intro m hm
+  unfold handlerMsgs at hm
+  cases req with
+  | nil => exact h1 m hm
+  | cons r0 rs =>
+    simp only at hm
+    split at hm
+    · rcases List.mem_cons.mp hm with h | h
+      · subst h; exact h3
+      · rcases List.mem_append.mp h with h | h
+        · exact h1 m h
+        · exact h2 m h
+    · rcases List.mem_append.mp hm with h | h
+      · exact h1 m h
+      · exact h2 m h
+
+/-- **POST /v1/chat/completions (OpenAI-compatible entry)**: the conversation ChatHandler builds from an
+    OpenAI request (model MESSAGEs with at most one image each) never makes chatPrompt answer "vision model
+    only supports a single image per message" — every image part is its own message — and whenever a prompt
+    is built, the images sent are exactly the image parts of the retained converted messages, in order,
+    numbered by position (`images_are_spec` on the converted conversation). -/
+theorem openai_chat_images (mm : List Msg) (s : Bytes) (req : List OMsg)
+    (hmm : ∀ m ∈ mm, m.images.length ≤ 1) :
+    chatPrompt cfg cost bad (handlerMsgs mm s (fromOpenAI req)) ≠ .errTooMany ∧
+    (∀ q n sys ret imgs, chatPrompt cfg cost bad (handlerMsgs mm s (fromOpenAI req)) = .ok q n sys ret imgs →
+      imgs = specImagesFrom cfg 0 (((handlerMsgs mm s (fromOpenAI req)).drop n).flatMap (·.images))) :=
+  ⟨no_too_many cfg cost bad _ (handlerMsgs_all _ mm s _ hmm (fromOpenAI_one_image req) (by simp)),
+    fun _ _ _ _ _ h => images_are_spec h⟩
+
+
+/-- non-vacuity of `openai_chat_images`: a user message with a text part, two image parts and another text part
+    becomes four messages; an mllama model accepts it (two images in ONE api message would be refused) -/
+example :
+    fromOpenAI [⟨.user, .parts [.text (txt bHi), .image ⟨1, true⟩, .image ⟨2, true⟩, .text (txt bSYS)]⟩]
+      = [⟨.user, txt bHi, []⟩, ⟨.user, [], [⟨1, true⟩]⟩, ⟨.user, [], [⟨2, true⟩]⟩, ⟨.user, txt bSYS, []⟩] ∧
+    chatPrompt ⟨true, true, 1, 100⟩ (fun _ => 1) (fun _ => false)
+      [⟨.user, txt bHi, [⟨1, true⟩, ⟨2, true⟩]⟩] = .errTooMany := by decide
+
 end OllamaVerif.C19
